@@ -59,7 +59,7 @@ DoCall == /\ Running /\ More /\ ~Skipped(Cur, Top.eff) /\ Cur.name \notin StackN
           /\ Call(Cur.id, Top.eff, Cur.inverted, Cur.invertible, Top.n)
           /\ UNCHANGED <<phase, applied, result, reqd>>
 DoLog == /\ Running /\ last # None
-         /\ StepDone(last.id, Top.eff, last.count, Top.depth)
+         /\ StepDone(last.id, Top.eff, last.count, IF last.id \in DOMAIN built THEN last.depth ELSE Top.depth)
          /\ UNCHANGED <<phase, applied, result, reqd>>
 \* an elementary operator returns whatever it returns; a missing inverse returns zero
 LeafRet == /\ Running /\ ~Top.pipe
